@@ -23,6 +23,9 @@ def c01(run, tier):
     cfg = run.cfg("Gen_C01.cfg", {"MaxNodes": Q(tier, 4, 5)}, "gen.cfg")
     rep = run.tlc_gen_replay("MC_C01", cfg, "steps", timeout=Q(tier, 300, 1800))
     run.absorb(rep, VALUE_ASPECTS)
+    cfg = run.cfg("Gen_C01.cfg", {"MaxNodes": Q(tier, 4, 5), "EmitFam": '"C01two"'}, "gen2.cfg")
+    rep = run.tlc_gen_replay("MC_C01", cfg, "two-steps", timeout=Q(tier, 400, 2400))
+    run.absorb(rep, VALUE_ASPECTS)
     # 3. code -> spec: random larger documents and multi-step paths, recorded and judged by Trace_Xsel
     for i in range(Q(tier, 1, 4)):
         run.trace_validate(["-fam", "paths", "-n", str(Q(tier, 2500, 20000)), "-sub", str(i)], "paths%d" % i)
@@ -56,6 +59,9 @@ def c03(run, tier):
     # the C01 step cases judged for order / duplicates as well
     cfg = run.cfg("Gen_C01.cfg", {"MaxNodes": Q(tier, 4, 5)}, "gen01.cfg")
     rep = run.tlc_gen_replay("MC_C01", cfg, "steps", timeout=Q(tier, 300, 1800))
+    run.absorb(rep, ORDER_ASPECTS)
+    cfg = run.cfg("Gen_C01.cfg", {"MaxNodes": Q(tier, 4, 4), "EmitFam": '"C01two"'}, "gen01two.cfg")
+    rep = run.tlc_gen_replay("MC_C01", cfg, "two-steps", timeout=Q(tier, 400, 2400))
     run.absorb(rep, ORDER_ASPECTS)
 
 
